@@ -26,6 +26,7 @@ FAKE = r'''#!/bin/sh
 # usage: shelxl -bN name ; behaviour from $FAKE_MODE
 name="$2"
 cp "$name.ins" "$name.seen_ins" 2>/dev/null
+if [ -f "$name.lstsrc" ]; then cp "$name.lstsrc" "$name.lst"; fi
 case "$FAKE_MODE" in
   ok)         cp "$name.new" "$name.res"; echo " finished at" ; exit 0 ;;
   ok_lst)     cp "$name.new" "$name.res"; echo " R1 = 0.05" > "$name.lst"; exit 0 ;;
@@ -61,19 +62,38 @@ def new_res(text, rng):
     return '\n'.join(lines) + '\n'
 
 
-def run_refine(tmp, text, newtext, mode, cycles, keep=False):
+LST = {
+    'good': [' LATT  1', ' something', ' Final Structure Factor Calculation for  m  in P2(1)/c', '', ' Total number of l.s. parameters =   100', '',
+             ' wR2 =  0.1005 before cycle   5 for    2000 data and    100 /    100 parameters', ' GooF = S =     1.016;     Restrained GooF =      1.016 for      10 restraints', ' end of listing'],
+    # SHELXL stopped before anything was refined: the listing reports no data and no parameters
+    'zero': [' LATT  1', ' Final Structure Factor Calculation for  m  in P2(1)/c', '', '', '',
+             ' wR2 =  0.0000 before cycle   1 for       0 data and      0 /      0 parameters', ' GooF = S =     0.000;     Restrained GooF =      0.000 for       0 restraints', ' end'],
+    # a listing without the echo of the LATT instruction whose last line is a single word
+    'nolatt': [' Final Structure Factor Calculation for  m  in P2(1)/c', '', '', '',
+               ' wR2 =  0.1005 before cycle   5 for    2000 data and    100 /    100 parameters', ' GooF = S =     1.016;     Restrained GooF =      1.016 for      10 restraints', ' +++'],
+    'truncated': [' LATT  1', ' Final Structure Factor Calculation for  m  in P2(1)/c'],
+    'none': None,
+}
+STEMS = ['m', 'm', 'comp.v2']       # a structure name with a dot in it is a legal file stem
+
+
+def run_refine(tmp, text, newtext, mode, cycles, keep=False, stem='m', lst='none'):
     if not keep:
         for f in os.listdir(tmp):
             p = os.path.join(tmp, f)
             if f not in ('bin',):
                 shutil.rmtree(p) if os.path.isdir(p) else os.remove(p)
-        open(os.path.join(tmp, 'm.res'), 'wb').write(text.encode('utf-8'))
+        open(os.path.join(tmp, stem + '.res'), 'wb').write(text.encode('utf-8'))
     else:
-        for f in ('m.seen_ins', 'm.ins'):
+        for f in (stem + '.seen_ins', stem + '.ins'):
             if os.path.exists(os.path.join(tmp, f)):
                 os.remove(os.path.join(tmp, f))
-    open(os.path.join(tmp, 'm.hkl'), 'w').write('   0   0   0    0.00    0.00\n')
-    open(os.path.join(tmp, 'm.new'), 'wb').write(newtext.encode('utf-8'))
+    open(os.path.join(tmp, stem + '.hkl'), 'w').write('   0   0   0    0.00    0.00\n')
+    open(os.path.join(tmp, stem + '.new'), 'wb').write(newtext.encode('utf-8'))
+    if os.path.exists(os.path.join(tmp, stem + '.lstsrc')):
+        os.remove(os.path.join(tmp, stem + '.lstsrc'))
+    if LST[lst] is not None:
+        open(os.path.join(tmp, stem + '.lstsrc'), 'w').write('\n'.join(LST[lst]) + '\n')
     from shelxfile.shelx.shelx import Shelxfile
     cwd = os.getcwd()
     os.chdir(tmp)
@@ -84,7 +104,7 @@ def run_refine(tmp, text, newtext, mode, cycles, keep=False):
     shx = Shelxfile()
     try:
         with contextlib.redirect_stdout(io.StringIO()):
-            shx.read_file('m.res')
+            shx.read_file(stem + '.res')
             pre_lines = [str(x) for i, x in enumerate(shx._reslist) if i not in shx.delete_on_write and str(x) != '']
             had_acta = shx.acta is not None
             try:
@@ -98,7 +118,8 @@ def run_refine(tmp, text, newtext, mode, cycles, keep=False):
         os.environ['PATH'] = old_path
     # bytes, not text: universal-newline reading would hide a changed line end
     rd = lambda n: open(os.path.join(tmp, n), 'rb').read().decode('utf-8', 'surrogateescape') if os.path.exists(os.path.join(tmp, n)) else None
-    res.update({'res': rd('m.res'), 'ins': rd('m.ins'), 'seen_ins': rd('m.seen_ins'), 'bak': rd('m.shx-bak'), 'had_acta': had_acta,
+    stray = sorted(f for f in os.listdir(tmp) if f.endswith('.ins') and f != stem + '.ins')
+    res.update({'res': rd(stem + '.res'), 'ins': rd(stem + '.ins'), 'seen_ins': rd(stem + '.seen_ins'), 'bak': rd(stem + '.shx-bak'), 'had_acta': had_acta, 'stray_ins': stray,
                 'saves': [open(os.path.join(tmp, 'shxsaves', f), 'rb').read().decode('utf-8', 'surrogateescape') for f in os.listdir(os.path.join(tmp, 'shxsaves'))] if os.path.isdir(os.path.join(tmp, 'shxsaves')) else [],
                 'shx': shx})
     return res
@@ -132,10 +153,16 @@ def run(ctx):
             newtext = new_res(base, rng)
             for mode in MODES:
                 cycles = rng.choice([None, 0, 4, 12])
-                r = run_refine(tmp, text, newtext, mode, cycles)
+                stem = STEMS[(k + MODES.index(mode)) % len(STEMS)]
+                lst = rng.choice(sorted(LST))
+                if mode == 'ok_lst':
+                    lst = 'none'        # this behaviour writes its own listing
+                r = run_refine(tmp, text, newtext, mode, cycles, stem=stem, lst=lst)
                 ev += 1
                 hist[mode] = hist.get(mode, 0) + 1
-                case = {'text': text, 'mode': mode, 'cycles': cycles}
+                hist['listing ' + lst] = hist.get('listing ' + lst, 0) + 1
+                hist['stem ' + stem] = hist.get('stem ' + stem, 0) + 1
+                case = {'text': text, 'mode': mode, 'cycles': cycles, 'stem': stem, 'listing': LST[lst]}
                 failed = mode in FAILS
                 if failed:
                     if r['res'] != text:
@@ -163,6 +190,9 @@ def run(ctx):
                                                  [str(x) for x in shx._reslist[ui:ui + 3]])
                             continue
                 # the .ins handed to SHELXL
+                if r['stray_ins']:
+                    common.add_violation(ctx, 'the model was written to an .ins file with a different name than the one handed to SHELXL', case, stem + '.ins', r['stray_ins'])
+                    continue
                 ins = r['seen_ins'] if r['seen_ins'] is not None else r['ins']
                 if ins is None:
                     common.add_violation(ctx, 'no .ins file was handed to SHELXL', case, 'an .ins file', None)
